@@ -226,7 +226,8 @@ func updateRegex(filePath string, ruleId string, chainOffset uint8, newRegex str
 			break
 		}
 	}
-	if !foundRule || chainOffset != chainCount {
+	if !foundRule || chainOffset != chainCount || index < 0 {
+		// index < 0: the id action is on the first line of the file, no SecRule line precedes it
 		logger.Fatal().Msgf("Failed to find rule %s, chain offset, %d in %s", ruleId, chainOffset, filePath)
 	}
 
